@@ -436,7 +436,8 @@ def main(argv=None):
         for name, t in by_name.items():
             seen = agg["stats"][name].classes
             for rc in t.required:
-                if seen.get(rc, 0) == 0 and not skipped:
+                # "A|B": any one of the alternatives will do (B usually says why A cannot occur on this tree)
+                if all(seen.get(alt, 0) == 0 for alt in rc.split("|")) and not skipped:
                     errors.append(f"required class '{rc}' of target {name} never generated")
 
         # ---- failures: known findings vs new violations (shrink new ones)
